@@ -99,3 +99,15 @@ Example C07_history_nonvacuous :
   final ex_oracles ex_policy 76 [InRec ex_cred; InRec ex_cred] = 77 /\
   final ex_oracles ex_policy 80 [InRec ex_cred] = 80.
 Proof. vm_compute. repeat split. Qed.
+
+(* the counter is read big-endian from bytes 33..36 of the authenticator data: the positional
+   weights written out (a little-endian or 16-bit reading falsifies this statement) *)
+Theorem C07_counter_is_big_endian : forall v ad b0 b1 b2 b3, parse_auth_data v = Ok ad ->
+  slice 33 37 v = [b0; b1; b2; b3] ->
+  ad_count ad = b0 * 2 ^ 24 + b1 * 2 ^ 16 + b2 * 2 ^ 8 + b3.
+Proof. exact counter_big_endian. Qed.
+Print Assumptions C07_counter_is_big_endian.
+
+Example C07_big_endian_nonvacuous :
+  slice 33 37 (acr_auth_data ex_cred) = [0; 0; 0; 77] /\ is_ok (parse_auth_data (acr_auth_data ex_cred)) = true.
+Proof. vm_compute. split; reflexivity. Qed.
